@@ -23,7 +23,7 @@
 (* thread t, so that the trace specification can compose start / action / return. *)
 EXTENDS Integers, Sequences, FiniteSets, TLC
 
-CONSTANTS Progs      \* set of scenarios [prog |-> <<thread programs>>, n |-> ring size]
+CONSTANTS Progs      \* set of scenarios [prog |-> <<thread programs>>, n |-> ring size, fx |-> fixed-code variant?]
 
 VARIABLES S,         \* state record, see InitS
           M,         \* monitor
@@ -33,10 +33,13 @@ vars == <<S, M, last>>
 
 IdleTh == [pc |-> "idle", i |-> 0, a |-> <<>>, k |-> 0]
 
-InitS(prog, n) ==
-  [ fl |-> FALSE, buf |-> <<>>, rd |-> 0, wr |-> 0, out |-> <<>>,
+\* fx = TRUE: the code with the proposed fix (reports/conc-fix-1.diff): one mutex, taken exclusively by Write
+\* and held by Flush across the replay, which writes to the underlying writer directly
+InitSx(prog, n, fx) ==
+  [ fx |-> fx, fl |-> FALSE, buf |-> <<>>, rd |-> 0, wr |-> 0, out |-> <<>>,
     logs |-> [j \in 1..n |-> 0], idx |-> 0, reg |-> FALSE, mon |-> <<>>, rl |-> 0, n |-> n,
     th |-> [t \in DOMAIN prog |-> IdleTh], prog |-> prog ]
+InitS(prog, n) == InitSx(prog, n, FALSE)
 
 HasOp(s, t) == s.th[t].i < Len(s.prog[t])
 CurOp(s, t) == s.prog[t][s.th[t].i + 1]
@@ -51,19 +54,22 @@ Acts(s, t) ==
   LET th == s.th[t]  pc == th.pc IN
   IF pc \in {"idle", "ret"} THEN {}
   ELSE LET o == CurOp(s, t) IN
-  CASE pc = "w_rl"  -> IF s.wr = 0 THEN { [s EXCEPT !.rd = @ + 1, !.th[t].pc = "w_chk"] } ELSE {}
+  CASE pc = "w_rl"  -> IF s.fx THEN (IF s.wr = 0 /\ s.rd = 0 THEN { [s EXCEPT !.wr = t, !.th[t].pc = "w_chk"] } ELSE {})
+                       ELSE IF s.wr = 0 THEN { [s EXCEPT !.rd = @ + 1, !.th[t].pc = "w_chk"] } ELSE {}
     [] pc = "w_chk" -> IF s.fl THEN { [s EXCEPT !.th[t].pc = "w_out"] }
                        ELSE { [s EXCEPT !.th[t].pc = "w_app"], [s EXCEPT !.th[t].pc = "w_rd"] }
-    [] pc = "w_out" -> { [s EXCEPT !.out = Append(@, o.v), !.rd = @ - 1, !.th[t].pc = "ret"] }
+    [] pc = "w_out" -> { [s EXCEPT !.out = Append(@, o.v), !.rd = IF s.fx THEN @ ELSE @ - 1, !.wr = IF s.fx THEN 0 ELSE @, !.th[t].pc = "ret"] }
     [] pc = "w_app" -> { [s EXCEPT !.buf = Append(@, o.v), !.th[t].pc = "w_ret"] }
     [] pc = "w_rd"  -> { [s EXCEPT !.th[t].a = s.buf, !.th[t].pc = "w_wr"] }
     [] pc = "w_wr"  -> { [s EXCEPT !.buf = Append(th.a, o.v), !.th[t].a = <<>>, !.th[t].pc = "w_ret"] }
-    [] pc = "w_ret" -> { [s EXCEPT !.rd = @ - 1, !.th[t].pc = "ret"] }
+    [] pc = "w_ret" -> { [s EXCEPT !.rd = IF s.fx THEN @ ELSE @ - 1, !.wr = IF s.fx THEN 0 ELSE @, !.th[t].pc = "ret"] }
     [] pc = "f_lk"  -> IF s.rd = 0 /\ s.wr = 0 THEN { [s EXCEPT !.wr = t, !.th[t].pc = "f_set"] } ELSE {}
-    [] pc = "f_set" -> { [s EXCEPT !.fl = TRUE, !.th[t].pc = "f_ul"] }
+    [] pc = "f_set" -> { [s EXCEPT !.fl = TRUE, !.th[t].pc = IF s.fx THEN "f_rng" ELSE "f_ul"] }
     [] pc = "f_ul"  -> { [s EXCEPT !.wr = 0, !.th[t].pc = "f_rng"] }
     [] pc = "f_rng" -> { [s EXCEPT !.th[t].a = s.buf, !.th[t].k = 1,
-                                   !.th[t].pc = IF Len(s.buf) = 0 THEN "f_clr" ELSE "fw_rl"] }
+                                   !.th[t].pc = IF Len(s.buf) = 0 THEN "f_clr" ELSE IF s.fx THEN "fx_out" ELSE "fw_rl"] }
+    [] pc = "fx_out" -> { [s EXCEPT !.out = Append(@, th.a[th.k]), !.th[t].k = @ + 1,
+                                    !.th[t].pc = IF th.k + 1 > Len(th.a) THEN "f_clr" ELSE "fx_out"] }
     [] pc = "fw_rl" -> IF s.wr = 0 THEN { [s EXCEPT !.rd = @ + 1, !.th[t].pc = "fw_chk"] } ELSE {}
     [] pc = "fw_chk" -> { [s EXCEPT !.th[t].pc = IF s.fl THEN "fw_out" ELSE "fw_app"] }
     [] pc = "fw_out" -> { [s EXCEPT !.out = Append(@, th.a[th.k]), !.rd = @ - 1, !.th[t].k = @ + 1,
@@ -71,7 +77,7 @@ Acts(s, t) ==
     [] pc = "fw_app" -> { [s EXCEPT !.buf = Append(@, th.a[th.k]), !.th[t].pc = "fw_ret"] }
     [] pc = "fw_ret" -> { [s EXCEPT !.rd = @ - 1, !.th[t].k = @ + 1,
                                     !.th[t].pc = IF th.k + 1 > Len(th.a) THEN "f_clr" ELSE "fw_rl"] }
-    [] pc = "f_clr" -> { [s EXCEPT !.buf = <<>>, !.th[t].a = <<>>, !.th[t].k = 0, !.th[t].pc = "ret"] }
+    [] pc = "f_clr" -> { [s EXCEPT !.buf = <<>>, !.wr = IF s.fx THEN 0 ELSE @, !.th[t].a = <<>>, !.th[t].k = 0, !.th[t].pc = "ret"] }
     [] pc = "r_lk"  -> IF s.rl = 0 THEN { [s EXCEPT !.rl = t, !.th[t].pc = "r_st"] } ELSE {}
     [] pc = "r_st"  -> { [s EXCEPT !.logs[s.idx + 1] = o.v, !.th[t].pc = "r_ix"] }
     [] pc = "r_ix"  -> { [s EXCEPT !.idx = (s.idx + 1) % s.n, !.th[t].pc = "r_nt"] }
@@ -192,7 +198,7 @@ Ev(t, inv, fin, s, end) == [t |-> t, inv |-> inv, fin |-> fin, out |-> s.out, mo
                             end |-> end, dead |-> FALSE, panic |-> ""]
 
 ------------------------------------------------------------------------------
-Init == /\ \E p \in Progs : S = InitS(p.prog, p.n) /\ M = MonInit(p.prog)
+Init == /\ \E p \in Progs : S = InitSx(p.prog, p.n, p.fx) /\ M = MonInit(p.prog)
         /\ last = [a |-> "init"]
 
 StartAct(t) ==
